@@ -265,8 +265,10 @@ func (x *Exec) mergeStates(ins []State, what string) State {
 			}
 			m, mok := mergeValues(conds[i], v, acc)
 			if !mok {
-				ok = false
-				break
+				// values that cannot be merged (e.g. pointers into different fresh objects) become an
+				// uninterpreted placeholder: passing it on is fine, looking inside it is a structure error
+				acc = Opq{Tag: "unmergeable"}
+				continue
 			}
 			acc = m
 		}
@@ -725,6 +727,9 @@ func (x *Exec) havocLike(v Value, hint string) Value {
 
 // havocLoopMemory replaces everything the loop may write by fresh values.
 func (x *Exec) havocLoopMemory(fr *frame, li *loopInfo, lc *LoopContract, st *State) {
+	if lc.ModNothing {
+		return
+	}
 	if len(lc.Modifies) > 0 {
 		for _, m := range lc.Modifies {
 			x.havocPathExpr(fr, st, m, nil)
